@@ -152,6 +152,22 @@ impl World {
                 }
             }
         }
+        // the long tour: a root in which the multi-part jobs are taken out again, so that EVERY operator has to place them
+        // into a tour long enough for the evaluator's sampled leg selection
+        if self.family == "long50" {
+            if let Some((_, base)) = out.first() {
+                let mut ctx = base.deep_copy();
+                let multis: Vec<Job> = ctx.solution.routes.iter().flat_map(|rc| rc.route().tour.jobs().filter(|j| j.as_multi().is_some()).cloned().collect::<Vec<_>>()).collect();
+                for rc in ctx.solution.routes.iter_mut() {
+                    for job in &multis {
+                        rc.route_mut().tour.remove(job);
+                    }
+                }
+                ctx.solution.required.extend(multis);
+                ctx.restore();
+                out.insert(0, ("cheapest/0/multi-pending".to_string(), ctx));
+            }
+        }
         out
     }
 }
@@ -681,6 +697,9 @@ fn slice(tier: Tier) -> Vec<(String, PProblem)> {
     for p in family_mixed10() {
         out.push(("mixed10".to_string(), p));
     }
+    for p in family_long50() {
+        out.push(("long50".to_string(), p));
+    }
     // feature interaction: pairs of feature transforms (quick: every 12th pair, thorough: every pair)
     for p in family_combo(2).into_iter().step_by(tier.pick(12, 1)) {
         out.push(("combo".to_string(), p));
@@ -718,7 +737,14 @@ fn explore(ctx: &RunCtx, world: &World, report: &mut Report) {
     let ops_for = || operators(&world.core, &world.env);
     let names: Vec<String> = ops_for().into_iter().map(|(n, _)| n).collect();
     let root_sink = if c05 { Some(observe_insertions(world.core.goal.clone())) } else { None };
-    let roots = world.roots();
+    let mut roots = world.roots();
+    // the 50-job tour (sampled leg selection): every operator once from two constructions, thorough: twice
+    let (depth, state_cap) = if world.family == "long50" {
+        roots.truncate(2);
+        (ctx.tier.pick(1, 2), ctx.tier.pick(400, 600))
+    } else {
+        (depth, state_cap)
+    };
     if let Some(sink) = root_sink {
         verif_observer::uninstall();
         let (n, errs, skipped) = std::mem::take(&mut *sink.borrow_mut());
